@@ -15,8 +15,13 @@ Property clause                                              theorem
   penalty = documented sum of per-line terms                  penalty_is_sum
   zero exactly where every line is satisfied, positive else   penalty_zero_iff, penalty_pos_of_violation
   constraint output drives the penalty of the same text to 0  constraint_drives_penalty_to_zero
+  join=and_ / or_ (mystic.coupler; Model/EmittedJoin.penJoin)  penjoin_and_zero_iff (zero exactly where EVERY line of every
+                                                              group is satisfied), penjoin_or_zero_iff (zero exactly where all
+                                                              lines of AT LEAST ONE group are satisfied; one line per group:
+                                                              at least one line), penjoin_nonneg, penjoin_or_empty
 -/
 import MysticVerif.Props.C13
+import MysticVerif.Proofs.EmittedJoin
 
 set_option linter.unusedSectionVars false
 set_option linter.unusedVariables false
@@ -252,6 +257,80 @@ theorem constraint_drives_penalty_to_zero [DecidableEq C] (env : Env C K) (isPos
   have hk : ((condEmit r.toRel2).1.default).kind = (condEmit r.toRel2).1 := by
     cases (condEmit r.toRel2).1 <;> rfl
   simp only [hk]; exact this
+
+
+/-! ## `generate_penalty(..., join=and_ / or_)` -/
+
+private theorem group_pen (env : Env C K) {k' : K} (hk : 0 < k') (top : K) (groups : List (List (PType × Expr C)))
+    (x : List K) (hd : ∀ g ∈ groups, AllDefined env g x) :
+    ∀ p ∈ groups.map (fun g => penalty env k' top g x), 0 ≤ p := by
+  intro p hp
+  simp only [List.mem_map] at hp
+  obtain ⟨g, hg, rfl⟩ := hp
+  exact (penalty_zero_iff env hk top g x (hd g hg)).2
+
+/-- **`join=and_`: zero exactly where every line holds.** The penalty `generate_penalty(groups, ptype, join=coupler.and_)`
+(`kj * |sum of the group penalties|`, `kj = 1` in the code) with positive multipliers and conforming types is zero
+exactly at the points where every condition of every group is satisfied. -/
+theorem penjoin_and_zero_iff (env : Env C K) {k' kj : K} (hk : 0 < k') (hkj : 0 < kj) (top : K)
+    (groups : List (List (PType × Expr C))) (x : List K) (hd : ∀ g ∈ groups, AllDefined env g x) :
+    ∃ v, penJoin env k' top kj .and_ groups x = some v ∧
+      (v = 0 ↔ ∀ g ∈ groups, ∀ te ∈ g, te.1.kind.satisfied (te.2.eval env x)) := by
+  refine ⟨_, rfl, ?_⟩
+  have hnn := group_pen env hk top groups x hd
+  obtain ⟨hs, hz⟩ := sum_zero_iff' _ hnn
+  rw [add_zero, mul_eq_zero, absR_eq_zero, sumL_eq, hz]
+  constructor
+  · rintro (h | h)
+    · exact absurd h hkj.ne'
+    · intro g hg
+      have := h _ (List.mem_map.mpr ⟨g, hg, rfl⟩)
+      exact (penalty_zero_iff env hk top g x (hd g hg)).1.mp this
+  · intro h
+    right
+    intro p hp
+    simp only [List.mem_map] at hp
+    obtain ⟨g, hg, rfl⟩ := hp
+    exact (penalty_zero_iff env hk top g x (hd g hg)).1.mpr (h g hg)
+
+/-- **`join=or_`: zero exactly where at least one group holds.** `generate_penalty(groups, ptype, join=coupler.or_)`
+(`kj * |min of the group penalties|`) is zero exactly at the points where all conditions of AT LEAST ONE group are
+satisfied - with one condition per group: where at least one line holds. -/
+theorem penjoin_or_zero_iff (env : Env C K) {k' kj : K} (hk : 0 < k') (hkj : 0 < kj) (top : K)
+    (g0 : List (PType × Expr C)) (groups : List (List (PType × Expr C))) (x : List K)
+    (hd : ∀ g ∈ g0 :: groups, AllDefined env g x) :
+    ∃ v, penJoin env k' top kj .or_ (g0 :: groups) x = some v ∧
+      (v = 0 ↔ ∃ g ∈ g0 :: groups, ∀ te ∈ g, te.1.kind.satisfied (te.2.eval env x)) := by
+  refine ⟨_, rfl, ?_⟩
+  have hnn := group_pen env hk top (g0 :: groups) x hd
+  simp only [List.map_cons, List.mem_cons, forall_eq_or_imp] at hnn
+  obtain ⟨_, hz⟩ := foldl_pyMin_zero_iff _ _ hnn.1 hnn.2
+  have hg0 := (penalty_zero_iff env hk top g0 x (hd g0 (by simp))).1
+  simp only [List.map_cons]
+  rw [add_zero, mul_eq_zero, absR_eq_zero, hz, hg0]
+  simp only [List.mem_cons, exists_eq_or_imp, List.mem_map]
+  constructor
+  · rintro (h | h | ⟨q, ⟨g, hg, rfl⟩, hq⟩)
+    · exact absurd h hkj.ne'
+    · exact Or.inl h
+    · exact Or.inr ⟨g, hg, (penalty_zero_iff env hk top g x (hd g (by simp [hg]))).1.mp hq⟩
+  · rintro (h | ⟨g, hg, h⟩)
+    · exact Or.inr (Or.inl h)
+    · exact Or.inr (Or.inr ⟨_, ⟨g, hg, rfl⟩, (penalty_zero_iff env hk top g x (hd g (by simp [hg]))).1.mpr h⟩)
+
+/-- the joined penalty is never negative -/
+theorem penjoin_nonneg (env : Env C K) {k' kj : K} (hkj : 0 < kj) (top : K) (j : PJoin)
+    (groups : List (List (PType × Expr C))) (x : List K) (v : K)
+    (h : penJoin env k' top kj j groups x = some v) : 0 ≤ v := by
+  unfold penJoin at h
+  split at h
+  · simp only [Option.some.injEq] at h; rw [← h, add_zero]; exact mul_nonneg hkj.le (absR_nonneg _)
+  · simp at h
+  · simp only [Option.some.injEq] at h; rw [← h, add_zero]; exact mul_nonneg hkj.le (absR_nonneg _)
+
+/-- `join=or_` over no members raises (`min()` of an empty sequence) -/
+theorem penjoin_or_empty (env : Env C K) (k' top kj : K) (x : List K) :
+    penJoin env k' top kj .or_ [] x = none := rfl
 
 /-! ## non-vacuity -/
 
